@@ -215,6 +215,11 @@ def run : History → Data → List Res
   | [], _ => []
   | (now, op) :: h, m => (step now op m).2 :: run h (step now op m).1
 
+/-- Final map of a sequential history. -/
+def exec : History → Data → Data
+  | [], m => m
+  | (now, op) :: h, m => exec h (step now op m).1
+
 /-! ## Concurrent callers: every call is one atomic step taken in lock order -/
 
 /-- Pop the next call of thread `i`. -/
@@ -231,6 +236,14 @@ def runSched (now : Nat) : List Nat → Data → List (List Op) → List (Nat ×
     match popThread progs i with
     | some x => (i, x.1, (step now x.1 m).2) :: runSched now is (step now x.1 m).1 x.2
     | none => runSched now is m progs
+
+/-- Map after the schedule. -/
+def execSched (now : Nat) : List Nat → Data → List (List Op) → Data
+  | [], m, _ => m
+  | i :: is, m, progs =>
+    match popThread progs i with
+    | some x => execSched now is (step now x.1 m).1 x.2
+    | none => execSched now is m progs
 
 /-- Programs left after the schedule. -/
 def remaining : List Nat → List (List Op) → List (List Op)
